@@ -142,7 +142,7 @@ def check_merge(ctx: Ctx):
                 v, w = implication(form, [lambda a: not a["cp"], lambda a: not a["cr"], beats], pcf)
                 ctx.decide("R14.2", f, c, construct + ":complete", "an unassigned prediction meeting the threshold on an unmatched reference is matched", v, {"row": w, "path_condition": pc_txt} if w else None)
             else:
-                ctx.violated("R14.2", f, c, construct, "first match of a reference is not guarded by the score/threshold comparison", {"path_condition": pc_txt})
+                ctx.decide("R14.2", f, c, construct, "first match of a reference is guarded by the score/threshold comparison", None if form.opaque else False, {"path_condition": pc_txt, "unmodelled_conditions": sorted(form.opaque.values())[:4]})
             _check_score_update(ctx, prog, f, c, construct, ref, {score})
         else:
             if dec_key and new_key:
@@ -172,7 +172,7 @@ def check_merge(ctx: Ctx):
                 v, wit = dec(v, w)
                 ctx.decide("R14.3", f, c, construct, "a further prediction is merged only if the combined score is strictly better than the recorded score in the metric's direction", v, wit)
             else:
-                ctx.violated("R14.3", f, c, construct, "merge is not guarded by a comparison of the combined score with the recorded score of the reference", {"path_condition": pc_txt, "combined_score_vars": sorted(new_vars)})
+                ctx.decide("R14.3", f, c, construct, "merge is guarded by a comparison of the combined score with the recorded score of the reference", None if form.opaque else False, {"path_condition": pc_txt, "combined_score_vars": sorted(new_vars), "unmodelled_conditions": sorted(form.opaque.values())[:4]})
             _check_score_update(ctx, prog, f, c, construct, ref, new_vars)
     bad = [n for n in ast.walk(loop) if isinstance(n, (ast.Break, ast.Return, ast.Raise))]
     ctx.decide("R14.1", f, loop, f"{f.qual}:loop", "candidate loop has no break/return/raise", not bad)
